@@ -5,15 +5,9 @@ from props import _lay
 
 LEVEL = "proof"
 MODULE = "Phil.Props.C01"
-LEVEL_TEXT = ("Lean theorems about the printer/parser model (see evidence 'theorems'): quoting round trip of every printed word "
-              "(C03 lemmas) and of converter type renderings; the printer model (definition.show, scope.show, show_attributes, "
-              "textwrap fill, converter __str__) and parser model are tied to /repo by a correspondence run of `show` and `parse` "
-              "on every case; the property itself (parse -> print at level 0/2/3 and several widths -> parse -> same tree; second "
-              "print byte-identical) is evaluated on the implementation by the oracle for every generated document.")
-LEVEL_NOTE = ("The closed theorem parse(show t) ~ t for all parser-built trees is not proved (DESIGN §5 C01 route through parser "
-              "soundness is not finished). Known findings D6 (backslash continuation after a multi-line quoted word) and D7 "
-              "(unquoted backslash word) are visited in their own streams. textwrap.wrap is modelled, tab-free text only.")
-TECHNIQUE = "Lean 4 lemmas on printer/tokenizer model + differential correspondence + round-trip oracle"
+LEVEL_TEXT = 'Lean theorems, all inputs: the closed print->parse->print round trip for attribute-free trees to any depth at every print width (print_tree, print_parse_tree(_exact/_nowrap), second_print_identical_tree; flat special case with exact lines), show_ignores_positions for arbitrary trees, the converter type round trip convFromExpr(render c) = c, the quoting round trip of every printed word (C03). The printer and parser models are tied to /repo by a correspondence run of show and parse on every generated case (levels 0/2/3, several widths); the oracle evaluates the property as stated on the implementation (parse -> print -> parse -> same tree incl. every attribute; second print byte-identical).'
+LEVEL_NOTE = 'Closed theorem covers attribute-free trees at level 0; attribute lines (levels 1-3) rest on per-stage theorems (show_attributes, assignment, type round trip) plus correspondence and oracle. Kernel-checked sharp edges = known findings D6, D7, D28. textwrap.wrap is modelled for tab-free text. Trusted: Lean kernel (+propext, Classical.choice, Quot.sound), the hand-written model being the code (checked by correspondence on every run, source-drift triggers a deeper pass).'
+TECHNIQUE = 'Lean 4 closed-form round-trip theorems on the printer/parser model + differential correspondence + round-trip oracle'
 RULE = ("documents from the layout grammar (all quote styles, multi-line strings, long values that wrap, every attribute kind, "
         "every built-in type with constructor arguments, dotted names, '!' marks) and mutated/soup documents that still parse, x "
         "attributes level {0,2,3} x print width {minimal, 30-ish, 79, 200}; non-trivial = tree non-empty; distinct = (text, level, width)")
